@@ -286,6 +286,31 @@ def run_impl(scratch, ops, backend="py", extra_env=None, timeout=3000):
     return out, ""
 
 
+def source_coverage(scratch, covdir):
+    """combine the coverage data files written by run_impl (pure-Python backend) and summarise per source file"""
+    import glob
+    import coverage
+    files = glob.glob(os.path.join(covdir, "cov.*"))
+    if not files:
+        return None
+    out = os.path.join(covdir, "combined")
+    cov = coverage.Coverage(data_file=out, branch=True)
+    cov.combine(files, keep=True)
+    cov.save()
+    res = {}
+    ts = tm = 0
+    for fn in sorted(cov.get_data().measured_files()):
+        if not fn.startswith(scratch.dir):
+            continue
+        an = cov._analyze(fn)
+        ns, nm = len(an.statements), len(an.missing)
+        ts += ns
+        tm += nm
+        res[os.path.relpath(fn, scratch.dir)] = {"statements": ns, "missed": nm, "missed_lines": sorted(an.missing)[:60]}
+    res["total"] = {"statements": ts, "missed": tm, "percent": round(100.0 * (ts - tm) / max(1, ts), 1)}
+    return res
+
+
 # ---------------------------------------------------------------- known findings
 def load_known(pid):
     path = os.path.join(VERIF, "KNOWN_FINDINGS.jsonl")
